@@ -29,7 +29,7 @@ class ProdRec(_prod.PRODEngine):
 
 class ConsRec(_cons.CONSEngine):
     """... and through a running consumer: it resumes delivering once the faults have ceased"""
-    MACROS = ["outage", "outage", "failfetch", "steady"]
+    MACROS = ["outage", "outage", "failfetch", "failfetch", "failempty", "steady"]
     MACRO_ONE_IN = 3
 
     def nontrivial(self):
@@ -38,7 +38,7 @@ class ConsRec(_cons.CONSEngine):
 
 def shard(ctx):
     drive(ctx, ProdRec, ctx.n(16 * 60, 16 * 1500), min_steps=8, max_steps=60, offset=8, props={"C08"})
-    drive(ctx, ConsRec, ctx.n(16 * 60, 16 * 1500), min_steps=8, max_steps=60, offset=9, props={"C08"})
+    drive(ctx, ConsRec, ctx.n(16 * 150, 16 * 2500), min_steps=8, max_steps=60, offset=9, props={"C08"})
     drive(ctx, Eng, ctx.n(16 * 250, 16 * 6000), min_steps=8, max_steps=70, props={"C08"})
 
 
